@@ -121,17 +121,19 @@ def _logu(rng, lo, hi):
 
 def _lam_power_specials(e, lo, hi):
     """branch values of the power family: 0, +-EPS exactly, one ulp either side"""
-    s = [0.0, e, _ulp_up(e), _ulp_dn(e), -e, -_ulp_up(e), -_ulp_dn(e), 1.0, lo, hi,
-         2 * e, 1e-9, 1e-7, 1e-5, 1e-3, -1e-9, -1e-5, -1e-3, 0.2, 0.5, 2.0, -0.5]
+    # 1e-7, 1e-5: between EPS and any threshold moved by orders of magnitude in one method
+    s = [0.0, e, _ulp_up(e), _ulp_dn(e), 1e-7, 1e-5, -e, -_ulp_up(e), 1.0, -1e-7, lo, hi,
+         -_ulp_dn(e), 2 * e, 1e-9, 1e-3, -1e-9, -1e-5, -1e-3, 0.2, 0.5, 2.0, -0.5]
     return [x for x in s if lo <= x <= hi]
 
 
 def _yj_lam_specials():
     a0 = 1e-8                      # isclose(lam, 0): |lam| <= atol
     a2 = 1e-8 + 1e-5 * 2.0         # isclose(lam, 2): |lam-2| <= atol + rtol*2
-    s = [0.0, a0, _ulp_up(a0), _ulp_dn(a0), -a0, -_ulp_up(a0), 2.0, 2.0 + a2, 2.0 - a2,
-         _ulp_up(2.0 + a2), _ulp_dn(2.0 - a2), 2.0 + 1e-5, 2.0 - 1e-5, 2.0 + 1e-4, 2.0 - 1e-4,
-         1.0, -1.0, 3.0, 1e-6, -1e-6, 1e-3, 0.5, 1.5, 2.5, -0.5]
+    s = [0.0, a0, _ulp_up(a0), _ulp_dn(a0), -a0, 1e-6, 2.0, 2.0 + a2, 2.0 - a2,
+         _ulp_up(2.0 + a2), _ulp_dn(2.0 - a2), 2.0 + 1e-3, 1.0, -1e-4, -_ulp_up(a0),
+         2.0 + 1e-5, 2.0 - 1e-5, 2.0 + 1e-4, 2.0 - 1e-4,
+         -1.0, 3.0, -1e-6, 1e-3, 0.5, 1.5, 2.5, -0.5]
     return s
 
 
@@ -189,8 +191,8 @@ def param_vectors(name, opts, rng, n):
             v["scale"] = [1.0, slo, 2.0, 1e-5, 1e3, 0.1][k % 6] if k < 12 else _logu(rng, math.log10(slo), 3)
         elif name == "Manly":
             llo, lhi = b["lam"][2], b["lam"][3]
-            sp = [0.0, e, _ulp_up(e), _ulp_dn(e), -e, -_ulp_up(e), 0.1, llo, lhi, 1e-3, -1e-3, 1.0, -1.0,
-                  1e-12, 2 * e]
+            sp = [0.0, e, _ulp_up(e), _ulp_dn(e), -e, 1e-7, 0.1, -1e-5, llo, lhi, -_ulp_up(e), 1e-3, -1e-3,
+                  1.0, -1.0, 1e-12, 2 * e]
             v["lam"] = sp[k] if k < len(sp) else \
                 (rng.choice([1, -1]) * _logu(rng, -3, math.log10(5)) if rng.random() < 0.7
                  else rng.choice([1, -1]) * _logu(rng, -12, -3))
